@@ -40,7 +40,9 @@ def spec_oracle(pops, prop):
         for rec in op["recs"]:
             ing = rec.get("ing")
             rev = int(rec.get("rev", "0"))
-            if rec.get("op") in ("intern", "mca"):
+            if rec.get("op") in ("intern", "mca", "commit", "touch", "abort", "insert-unwound"):
+                # every call of intern_id / maybe_changed_after records the revision as active,
+                # also one that unwinds (hook H5b records)
                 active.setdefault(ing, set()).add(rev)
             if rec.get("op") != "intern":
                 continue
@@ -120,6 +122,19 @@ def run(ctx, prop_note):
             known += 1
         if prob:
             oracle_bad.append((ops, prob))
+    # thorough: the same correspondence under panics in user code (C22 profile; needs hook H5b)
+    panic_res = None
+    if ctx.tier == "thorough" and idf.h5b_present():
+        panic_res = idf.run_intern_panic(ctx.seed, ctx.tier, n_cases=240)
+        for vf in panic_res["value_failures"][:2]:
+            oracle_bad.append((vf["case"], "panic profile: " + "; ".join(vf["problems"][:3])))
+        if panic_res["model_mismatches"] and res["ok"]:
+            mm = panic_res["model_mismatches"][0]
+            res["ok"] = False
+            res["mismatching_cases"] += len(panic_res["model_mismatches"])
+            res["first_mismatch"] = {"case_seed": mm["case_seed"], "profile": "panic",
+                                     "problems": mm["problems"], "shrunk_case": mm["case"],
+                                     "shrunk_problems": mm["problems"]}
     reported = 0
     for ops, prob in oracle_bad[:2]:
         ctx.violation(dict(kind="specification oracle violated on the implementation",
@@ -165,6 +180,9 @@ def run(ctx, prop_note):
         "distribution": res["distribution"],
         "totals": res["totals"],
         "samples": samples,
+        "panic_profile": None if panic_res is None else {
+            k: panic_res[k] for k in ("cases", "requests", "records", "panics_by_fault", "unwound_calls",
+                                      "requests_checked_after_a_panic", "known_finding_cases")},
         "wall_s": round(time.time() - t0, 1),
     })
     ctx.assumptions = ["the shard lock makes each interned operation atomic",
